@@ -71,7 +71,7 @@ class RecStore(KVStore):
             self.n_inflight -= 1
         st = self.tape.stamp()
         self.log.append((st, key, value))
-        self.by_key[key].append((st, value))
+        self.by_key[key].append((st, value, self.now.nanoseconds))
 
     def delete(self, key):
         self.n_inflight += 1
@@ -81,15 +81,16 @@ class RecStore(KVStore):
             self.n_inflight -= 1
         st = self.tape.stamp()
         self.log.append((st, key, DELETED))
-        self.by_key[key].append((st, DELETED))
+        self.by_key[key].append((st, DELETED, self.now.nanoseconds))
         return r
 
-    def applied_values(self, key) -> list:
-        return [v for (_, v) in self.by_key.get(key, ())]
+    def applied_values(self, key, upto_ns: int | None = None) -> list:
+        """Values applied for `key` in apply order (optionally only those applied at simulated time <= upto_ns)."""
+        return [v for (_, v, t) in self.by_key.get(key, ()) if upto_ns is None or t <= upto_ns]
 
-    def stamp_of(self, key, value) -> int | None:
-        for st, v in self.by_key.get(key, ()):
-            if v == value:
+    def stamp_of(self, key, value, upto_ns: int | None = None) -> int | None:
+        for st, v, t in self.by_key.get(key, ()):
+            if v == value and (upto_ns is None or t <= upto_ns):
                 return st
         return None
 
